@@ -226,3 +226,45 @@ class BuiltinLogger:
         else:
             setattr(builtins, LOGGER_NAME, self._old)
         return False
+
+
+# ---------------------------------------------------------------------------
+# state hygiene between cases
+
+import warnings as _warnings
+
+_BASE_FILTERS = list(_warnings.filters)
+HARNESS_BUILTINS = ("HVLOG", "HVLEN", "HVREC", "HVSNAP", "HVFN", "HVNS")
+
+
+def reset_state(module_names=(), module_prefixes=(), path_markers=()):
+    """Called at the start of every run_case: a case that was cut short (its timeout may have been
+    swallowed and re-wrapped by hy, or by the REPL) must not leave anything behind that the next
+    case in the same worker could observe."""
+    for n in HARNESS_BUILTINS:
+        if hasattr(builtins, n):
+            try:
+                delattr(builtins, n)
+            except AttributeError:
+                pass
+    for n in list(sys.modules):
+        if n in module_names or any(n.startswith(p) for p in module_prefixes):
+            sys.modules.pop(n, None)
+    for d in [d for d in sys.path if any(m in d for m in path_markers)]:
+        sys.path.remove(d)
+        sys.path_importer_cache.pop(d, None)
+    _warnings.filters[:] = _BASE_FILTERS
+    if hasattr(_warnings, "_filters_mutated"):
+        _warnings._filters_mutated()
+    try:
+        from hy.reader.hy_reader import HyReader
+        if getattr(HyReader, "_current_reader", None) is not None:
+            HyReader._current_reader = None
+    except Exception:
+        pass
+    try:
+        import hy.models
+        if getattr(hy.models, "_seen", None):
+            hy.models._seen.clear()
+    except Exception:
+        pass
